@@ -15,6 +15,9 @@ CHECKS = {
  "C02": ("exploration", "bounded-exhaustive execution: every corpus/hand-written function x full cross product of boundary inputs x gas ladder x configurations, plus every compile-accepted single-point Sierra mutant, run on the real VM",
          "Every run of the enumerated space must end in Ok (value or Sierra-level panic); a CairoRunError or runner panic is the violation. The accepted-mutant part executes valid Sierra the front end can never produce (swapped same-typed variables, retargeted aligned branches, swapped libfuncs), which is where 'accepted implies safe' can actually fail.",
          "Honest hints only; syscalls out of scope; inputs limited to scalar parameters (<=3) from the boundary domains.", "DESIGN.md §3 C02"),
+ "C03": ("fault_enumeration", "deviation-bounded fault enumeration: every hint occurrence of every honest run x every alternative of a per-output menu, injected through a hint-processor wrapper on the real VM",
+         "The environment answers a prover controls (hint outputs) are enumerated: after an honest run records the ordered hint occurrences, one run per (occurrence, alternative) deviates at exactly that point (bound 1). The deviated run must be invalid in the VM or produce the same value and gas. The real hint still executes (outputs redirected to scratch cells) so its side state stays honest. Evidence lists (hint kind, outcome) counts so vacuity is visible.",
+         "Soundness judged against cairo-vm's own checks, not a STARK prover; pointer-writing hints executed honestly; results holding addresses are not judged.", "DESIGN.md §3 C03"),
  "C04": ("exploration", "bounded-exhaustive execution with a per-run gas-accounting monitor over the relocated trace",
          "For every run of the execution space the property's inequality is evaluated from the real trace and resource counters; the evidence shows the minimum slack reached is exactly 0 on the unchanged tree (the formula is tight), so any undercharged step on an executed path is caught.",
          "Accounting convention (user-code pc range, the +100 return step) fixed on the unmodified tree and stated in the evidence rule; holes and range_check96 unpriced as in the property.", "DESIGN.md §3 C04"),
